@@ -57,6 +57,7 @@ class Unit:
         self.props = []
         self.allow = []        # allowed assumption markers
         self.kani = []
+        self.pathmap = []
 
 
 def parse_opts(words):
@@ -128,6 +129,18 @@ def parse_unit(path):
         if d == "@unit":
             u.name = words[1]
             i += 1
+        elif d == "@include":
+            sub = parse_unit(os.path.join(os.path.dirname(path), words[1]))
+            u.entries += sub.entries
+            u.pathmap += sub.pathmap
+            for a_ in sub.allow:
+                u.allow.append(a_)
+            i += 1
+        elif d == "@pathmap":
+            # @pathmap crate::ansi:: =>            (prefix token sequence -> replacement text)
+            lhs, _, rhs = ln[len("@pathmap"):].partition("=>")
+            u.pathmap.append((lhs.strip(), rhs.strip()))
+            i += 1
         elif d == "@props":
             u.props = words[1:]
             i += 1
@@ -143,7 +156,14 @@ def parse_unit(path):
             i += 1
         elif d in ("@prelude", "@raw"):
             b, i = block(i + 1)
+            b = [x if not (x.startswith("# ") or x == "#") else "" for x in b]
             u.entries.append(("raw", "\n".join(b), f"{d[1:]}@{name}.vc:{i - len(b)}"))
+            cur_fn = None
+        elif d == "@rawin":
+            hdr = ln[len("@rawin"):].strip()
+            b, i = block(i + 1)
+            b = [x if not (x.startswith("# ") or x == "#") else "" for x in b]
+            u.entries.append(("rawin", "\n".join(b), hdr, f"rawin@{name}.vc:{i - len(b)}"))
             cur_fn = None
         elif d in ("@item", "@type"):
             # @item FILE :: path elems [| opts]
@@ -162,6 +182,8 @@ def parse_unit(path):
                 s = bl.strip()
                 if s in ("requires", "ensures", "head"):
                     mode = s
+                    continue
+                if s.startswith("#") and not bl.startswith(" "):
                     continue
                 if mode is None:
                     if s and not s.startswith("//"):
@@ -280,6 +302,7 @@ class Ctx:
         self.repo = repo
         self.files = {}
         self.fired = []     # (rule, file, line, note)
+        self.pathmap = []
 
     def sf(self, rel):
         if rel not in self.files:
@@ -321,15 +344,34 @@ def common_rewrites(ctx, sf, a, b, item_kind, opts):
                 ctx.fire("N7", sf, t.start, f"#[{name}..]")
             k = close + 1
             continue
-        # N1: visibility removed (single module; visibility has no run-time meaning)
+        # N1: visibility normalised to `pub` (visibility has no run-time meaning): pub(crate)/pub(super) -> pub here,
+        # missing `pub` on items and fields is added by ensure_pub()
         if t.kind == "id" and t.text == "pub":
-            end = t.end
             if toks[k + 1].text == "(" and toks[k + 2].text in ("crate", "super", "in", "self"):
-                end = toks[pair[k + 1]].end
+                edits.append(Edit(toks[k + 1].start, toks[pair[k + 1]].end, ""))
                 k = pair[k + 1]
-            edits.append(Edit(t.start, end, ""))
             k += 1
             continue
+        # N10: all extracted items live in one module: `super::` / `self::` path prefixes are dropped and the
+        # unit's @pathmap prefixes are rewritten (path resolution has no run-time meaning)
+        if t.kind == "id" and t.text in ("super", "self") and toks[k + 1].text == "::" and toks[k - 1].text not in ("::", "(") \
+                and toks[k + 2].kind == "id":
+            edits.append(Edit(t.start, toks[k + 1].end, ""))
+            ctx.fire("N10", sf, t.start, f"{t.text}:: dropped")
+            k += 2
+            continue
+        if t.kind == "id" and toks[k - 1].text != "::" and ctx.pathmap:
+            hit = False
+            for lhs_toks, rhs in ctx.pathmap:
+                n_ = len(lhs_toks)
+                if [x.text for x in toks[k:k + n_]] == lhs_toks:
+                    edits.append(Edit(t.start, toks[k + n_ - 1].end, rhs))
+                    ctx.fire("N10", sf, t.start, "".join(lhs_toks) + " -> " + (rhs or "''"))
+                    k += n_
+                    hit = True
+                    break
+            if hit:
+                continue
         # N2: static -> const (immutable tables)
         if t.kind == "id" and t.text == "static" and toks[k + 1].text != "mut" and toks[k - 1].text != "'" \
                 and toks[k + 1].kind == "id" and toks[k + 2].text == ":":
@@ -382,6 +424,55 @@ def common_rewrites(ctx, sf, a, b, item_kind, opts):
             k = close + 1
             continue
         k += 1
+    return edits
+
+
+def ensure_pub(sf, it, in_trait_impl=False):
+    """N1: edits that add `pub` to an item (and to the fields of a struct) when it has none."""
+    toks, pair = sf.toks, sf.pair
+    edits = []
+    k = it.tok_lo
+    while toks[k].text == "#":
+        k = pair[k + 1] + 1
+    if it.kind in ("fn", "const", "static", "struct", "enum", "mod", "type", "union", "trait") and not in_trait_impl:
+        if toks[k].text != "pub":
+            edits.append(Edit(toks[k].start, toks[k].start, "pub "))
+    if it.kind == "struct" and it.body_open is not None:
+        j = it.body_open + 1
+        expect_field = True
+        while j < it.body_close:
+            t = toks[j]
+            if t.text in ("(", "[", "{"):
+                j = pair[j] + 1
+                continue
+            if expect_field:
+                if t.text == "#":
+                    j = pair[j + 1] + 1
+                    continue
+                if t.text == "pub":
+                    expect_field = False
+                elif t.kind == "id" and toks[j + 1].text == ":":
+                    edits.append(Edit(t.start, t.start, "pub "))
+                    expect_field = False
+            if t.text == ",":
+                # generic args contain commas: only depth-0 commas outside <> start a new field
+                expect_field = True
+            if t.text == "<":
+                # skip generic argument list
+                depth = 1
+                j += 1
+                while j < it.body_close and depth:
+                    if toks[j].text == "<":
+                        depth += 1
+                    elif toks[j].text == ">":
+                        depth -= 1
+                    elif toks[j].text == ">>":
+                        depth -= 2
+                    elif toks[j].text in ("(", "["):
+                        j = pair[j]
+                    j += 1
+                continue
+            j += 1
     return edits
 
 
@@ -484,6 +575,8 @@ def build_fn(ctx, unit, fs):
     has_body = it.body_open is not None
     sig_end_tok = it.body_open if has_body else it.tok_hi - 1   # `{` or `;`
     edits = common_rewrites(ctx, sf, it.tok_lo, it.tok_hi, "fn", fs.opts)
+    in_trait_impl = bool(parent_impl) and (parent_impl.startswith("trait") or " for " in (" " + parent_impl + " "))
+    edits += ensure_pub(sf, it, in_trait_impl)
     # drop leading doc comments: tokens don't include comments; text before first token is not copied
     start_off = toks[it.tok_lo].start
     # name the return value
@@ -769,6 +862,10 @@ def build_item(ctx, unit, spec):
         raise LostAnchor(f"item {spec.path} not found")
     toks = sf.toks
     edits = common_rewrites(ctx, sf, it.tok_lo, it.tok_hi, it.kind, spec.opts)
+    edits += ensure_pub(sf, it)
+    if it.kind == "impl" and " for " not in re.sub(r"\s+", " ", sf.text[it.start:sf.toks[it.body_open].start]):
+        for ch in it.children:
+            edits += ensure_pub(sf, ch)
     multi = []
     start_off = toks[it.tok_lo].start
     label = f"{it.kind} {it.name or it.header}"
@@ -908,6 +1005,7 @@ class Generated:
 def assemble(repo, unit_path, extra_header=""):
     unit = parse_unit(unit_path)
     ctx = Ctx(repo)
+    ctx.pathmap = [([t.text for t in lex(l)], r) for l, r in unit.pathmap]
     gen = Generated()
     segs = [Seg(HEADER, ("raw", "header"))]
     if "allocator_api" in " ".join(unit.verus_args):
@@ -925,7 +1023,15 @@ def assemble(repo, unit_path, extra_header=""):
     for ent in unit.entries:
         if ent[0] == "raw":
             close_impl()
-            segs.append(Seg(strip_vis(ent[1]) + "\n", ("raw", ent[2])))
+            segs.append(Seg(ent[1] + "\n", ("raw", ent[2])))
+        elif ent[0] == "rawin":
+            wrap = ent[2]
+            if open_impl is None or rustlex.norm_ws(wrap) != rustlex.norm_ws(open_impl):
+                close_impl()
+                wtxt = ("pub " + wrap) if wrap.startswith("trait") else wrap
+                segs.append(Seg(f"\n{wtxt} {{\n", ("raw", f"impl-open {wrap}")))
+                open_impl = wrap
+            segs.append(Seg(ent[1] + "\n", ("raw", ent[3])))
         elif ent[0] == "item":
             close_impl()
             s, info = build_item(ctx, unit, ent[1])
@@ -938,7 +1044,7 @@ def assemble(repo, unit_path, extra_header=""):
             wrap = ent[1].opts.get("impl_as") or parent
             if wrap and not (wrap.startswith("impl") or wrap.startswith("trait")):
                 wrap = None
-            if wrap != open_impl:
+            if wrap is None or open_impl is None or rustlex.norm_ws(wrap) != rustlex.norm_ws(open_impl):
                 close_impl()
                 if wrap:
                     hdr = wrap if ent[1].opts.get("impl_as") else impl_header_text(sf, ent[1])
@@ -1000,7 +1106,8 @@ def impl_header_text(sf, fs):
             k = it.tok_lo
             while sf.toks[k].text not in ("impl", "trait"):
                 k += 1
-            return sf.text[sf.toks[k].start:sf.toks[it.body_open].start].strip()
+            hdr = sf.text[sf.toks[k].start:sf.toks[it.body_open].start].strip()
+            return ("pub " + hdr) if it.kind == "trait" else hdr
     raise LostAnchor(f"enclosing impl of {fs.path} not found")
 
 
